@@ -383,8 +383,25 @@ pub fn mutate(seed: &Seed, rng: &mut Rng, thorough: bool, out: &mut dyn Write) {
             emit(out, &seed.op, &m, &seed.extra);
         }
     }
+    // two fields corrupted at once (a count together with an offset, two dimensions, …)
+    if seed.fields.len() >= 2 {
+        let pairs = if thorough { 600 } else { 30 };
+        for _ in 0..pairs {
+            let f1 = &seed.fields[rng.below(seed.fields.len() as u64) as usize];
+            let f2 = &seed.fields[rng.below(seed.fields.len() as u64) as usize];
+            let mut m = seed.bytes.clone();
+            for f in [f1, f2] {
+                let vs = corrupt_values(get(&seed.bytes, f), f.width);
+                if !vs.is_empty() {
+                    let v = vs[rng.below(vs.len() as u64) as usize];
+                    put(&mut m, f, v);
+                }
+            }
+            emit(out, &seed.op, &m, &seed.extra);
+        }
+    }
     // random single-byte changes
-    let flips = if thorough { 200 } else { 24 };
+    let flips = if thorough { 1000 } else { 24 };
     if n > 0 {
         for _ in 0..flips {
             let mut m = seed.bytes.clone();
